@@ -267,6 +267,8 @@ def _is_fresh_expr(v):
         nm = f.id if isinstance(f, ast.Name) else (f.attr if isinstance(f, ast.Attribute) else None)
         if nm in FRESH_CALLS:
             return True
+        if isinstance(f, ast.Attribute) and nm == "copy" and not v.args:
+            return True     # x.copy(): a new container
         if nm and nm[:1].isupper():      # constructor call by convention (ValidationError(...), cls(...))
             return True
     return False
